@@ -6,7 +6,8 @@ import (
 	"go/types"
 )
 
-// One normalisation of the loaded syntax, applied once after loading and before any rule looks: a tagless
+// One normalisation of the loaded syntax, applied once after loading and before any rule looks: a tagless (or, on a
+// variable or field path, tagged: the comparisons `tag == case` are then written out)
 //
 //	switch { case A: X; case B, C: Y; default: Z }
 //
@@ -50,9 +51,82 @@ func desugarSwitches(p *Prog) int {
 		}
 		return bad
 	}
-	convert := func(sw *ast.SwitchStmt) ast.Stmt {
-		if sw.Tag != nil || len(sw.Body.List) == 0 {
+	var curInfo *types.Info
+	// cloneTag: a copy of a side-effect-free tag expression (an identifier or a field path of one) that carries the
+	// original's type information; nil for anything else
+	var cloneTag func(e ast.Expr) ast.Expr
+	cloneTag = func(e ast.Expr) ast.Expr {
+		if curInfo == nil {
 			return nil
+		}
+		switch x := e.(type) {
+		case *ast.ParenExpr:
+			return cloneTag(x.X)
+		case *ast.Ident:
+			c := &ast.Ident{NamePos: x.NamePos, Name: x.Name}
+			if o := curInfo.Uses[x]; o != nil {
+				curInfo.Uses[c] = o
+			} else {
+				return nil
+			}
+			if tv, ok := curInfo.Types[x]; ok {
+				curInfo.Types[c] = tv
+			}
+			return c
+		case *ast.SelectorExpr:
+			base := cloneTag(x.X)
+			if base == nil {
+				return nil
+			}
+			sel := &ast.Ident{NamePos: x.Sel.NamePos, Name: x.Sel.Name}
+			if o := curInfo.Uses[x.Sel]; o != nil {
+				curInfo.Uses[sel] = o
+			}
+			c := &ast.SelectorExpr{X: base, Sel: sel}
+			if s, ok := curInfo.Selections[x]; ok {
+				curInfo.Selections[c] = s
+			}
+			if tv, ok := curInfo.Types[x]; ok {
+				curInfo.Types[c] = tv
+			}
+			return c
+		}
+		return nil
+	}
+	convert := func(sw *ast.SwitchStmt) ast.Stmt {
+		if len(sw.Body.List) == 0 {
+			return nil
+		}
+		// a switch on a variable or field path, `switch v { case a, b: … }`, tests v == a || v == b in order: the same
+		// decision list with the comparisons written out (case expressions are evaluated left to right, top to bottom,
+		// until one is equal — as the || / else-if chain does)
+		tagged := sw.Tag != nil
+		if tagged && cloneTag(sw.Tag) == nil {
+			return nil
+		}
+		if tagged {
+			// only numeric tags (slots, epochs, counters): a switch over names or kinds (fork names, verdicts) is a table
+			// that the registry rules read as one
+			b, ok := curInfo.TypeOf(sw.Tag).Underlying().(*types.Basic)
+			if !ok || b.Info()&types.IsInteger == 0 {
+				return nil
+			}
+			// and only when a case is computed (slot+1): a switch over constants or plain variables stays the table it is
+			computed := false
+			for _, c := range sw.Body.List {
+				if cc, ok := c.(*ast.CaseClause); ok {
+					for _, e := range cc.List {
+						if tv, ok := curInfo.Types[e]; !ok || tv.Value == nil {
+							if _, arith := ast.Unparen(e).(*ast.BinaryExpr); arith {
+								computed = true
+							}
+						}
+					}
+				}
+			}
+			if !computed {
+				return nil
+			}
 		}
 		var def *ast.CaseClause
 		var cases []*ast.CaseClause
@@ -80,10 +154,22 @@ func desugarSwitches(p *Prog) int {
 			return &ast.BlockStmt{Lbrace: cc.Colon, List: body, Rbrace: cc.End()}
 		}
 		var head, cur *ast.IfStmt
+		boolTV := types.TypeAndValue{Type: types.Typ[types.Bool]}
+		test := func(e ast.Expr) ast.Expr {
+			if !tagged {
+				return e
+			}
+			be := &ast.BinaryExpr{X: cloneTag(sw.Tag), Op: token.EQL, Y: e, OpPos: e.Pos()}
+			curInfo.Types[be] = boolTV
+			return be
+		}
 		for _, cc := range cases {
-			cond := cc.List[0]
+			cond := test(cc.List[0])
 			for _, e := range cc.List[1:] {
-				cond = &ast.BinaryExpr{X: cond, Op: token.LOR, Y: e, OpPos: e.Pos()}
+				cond = &ast.BinaryExpr{X: cond, Op: token.LOR, Y: test(e), OpPos: e.Pos()}
+				if tagged {
+					curInfo.Types[cond] = boolTV
+				}
 			}
 			is := &ast.IfStmt{If: cc.Pos(), Cond: cond, Body: bodyOf(cc)}
 			if head == nil {
@@ -121,6 +207,7 @@ func desugarSwitches(p *Prog) int {
 		}
 	}
 	for _, pk := range p.Pkgs {
+		curInfo = pk.TypesInfo
 		for _, f := range pk.Syntax {
 			// repeat until stable: rewritten bodies may contain further switches (handled by the same walk, since the
 			// new if-chain's blocks are visited below)
